@@ -52,7 +52,7 @@ manifest = {
     }],
     "checks": checks,
     "not_applicable": [{"property_id": p, "reason": r} for p, r in sorted(NOT_APPLICABLE.items())],
-    "notes": "All claims are level 'other': static discharge of enumerated structural obligations that are necessary conditions of the property (DESIGN.md §3 lists, per property, what is decided and what is not). Known findings: /verif/known_findings.txt.",
+    "notes": "All claims are level 'other': static discharge of enumerated structural obligations that are necessary conditions of the property (DESIGN.md §3 lists, per property, what is decided and what is not). Tiers: quick analyses the default build configuration; thorough runs the same rules over every build configuration the repository compiles for (default, linux/386 where int is 32 bits, darwin/arm64) and merges the obligations, keeping the worst verdict per construct. Known findings: /verif/known_findings.txt.",
 }
 json.dump(manifest, open(os.path.join(HERE, "MANIFEST.json"), "w"), indent=1)
 print("MANIFEST.json:", len(checks), "checks,", len(NOT_APPLICABLE), "not applicable")
